@@ -141,7 +141,23 @@ class Spec:
 # --------------------------------------------------------------------------------------------------
 # operations: tuples; ('ins', spec, idx|None, viaStr) ('add', spec, viaStr) ('del', i) ('enc', name|None)
 # ('text', [spec]) ('nsset', p, u) ('nsdel', p) ('nins', path, spec, idx|None, viaStr) ('ndel', path, i)
+# ('nbroken', path, [spec], variant)   container.cssText = almost a rule (BROKEN_TAILS)
 # ('ntext', path, [spec]) ('mode', raising) ('insl', [spec], idx|None) ('ninsl', path, [spec], idx|None)
+
+# how a nested text is broken: content after the closing brace, or the block is not closed
+BROKEN_TAILS = ['} ', '}/*c*/', '};', '} .z{left:0}', '}}', '} @x y;', '}\n', 'UNCLOSED', 'NOBLOCK']
+
+
+def broken_text(is_media, kids_text, variant):
+    head = '@media tv' if is_media else '@page :first'
+    body = '{' + ('' if is_media else 'margin:0;') + kids_text
+    tail = BROKEN_TAILS[variant % len(BROKEN_TAILS)]
+    if tail == 'NOBLOCK':
+        return head
+    if tail == 'UNCLOSED':
+        return head + body
+    return head + body + tail
+
 
 def op_to_json(op):
     return [x.to_json() if isinstance(x, Spec) else [s.to_json() for s in x] if (isinstance(x, list) and x and
@@ -166,6 +182,8 @@ def ops_from_json(data):
             out.append((t, tuple(op[1]), [Spec.from_json(s) for s in op[2]]))
         elif t in ('ndel', 'decl'):
             out.append((t, tuple(op[1]), op[2]))
+        elif t == 'nbroken':
+            out.append((t, tuple(op[1]), [Spec.from_json(s) for s in op[2]], op[3]))
         else:
             out.append(tuple(op))
     return out
@@ -212,6 +230,8 @@ def op_line(op):
         return 'ndel %s %d' % (path(op[1]), op[2])
     if t == 'ntext':
         return 'ntext %s %s' % (path(op[1]), specs(op[2]))
+    if t == 'nbroken':
+        return 'nbroken %s' % path(op[1])
     if t == 'insl':
         return 'insl %s %s' % (specs(op[1]), idx(op[2]))
     if t == 'ninsl':
@@ -324,6 +344,15 @@ def boundary_histories():
                        [S('media', kids=[S('media', kids=[S('style', used=['u'])]), S('comment')])]):
         hs.append([('text', [ns, S('media', kids=depth_kids)]), ('nsdel', 'p'), ('del', 0), ('nsset', 'q', 'u'), ('nsdel', 'p'),
                    ('ins', S('namespace', pre='p', uri='b'), 0, 0), ('del', 1), ('nsdel', 'q'), ('del', 0)])
+    # nested texts that are almost a rule: trailing content, unclosed block — in raise mode a SyntaxErr, in log-only
+    # mode the call returns; either way the old children stay and keep naming the container
+    for cont, kidsets in ((me, ([], [st], [st, co], [S('media', kids=[st]), un])), (pa, ([], [mar], [mar, co]))):
+        for ks in kidsets:
+            for v in range(len(BROKEN_TAILS)):
+                hs.append([('text', [S(cont.kind, kids=[S('margin', pre='@top-right')] if cont.kind == 'page' else [st, S('media', kids=[st])])]),
+                           ('nbroken', (0,), ks, v), ('ndel', (0,), 0), ('nbroken', (0,), ks, v)])
+    hs.append([('text', [S('media', kids=[S('media', kids=[st, co]), st])]), ('nbroken', (0, 0), [st], 0), ('nbroken', (0, 0), [], 7),
+               ('ntext', (0, 0), [co]), ('nbroken', (0,), [st], 3)])
     # the default namespace, used by a bare type selector
     hs.append([('nsset', '', 'u'), ('ins', S('style', used=['u']), None, 1), ('nsdel', ''), ('nsset', '', 'u'), ('nsset', '', 'v'),
                ('nsset', 'p', 'u'), ('nsdel', ''), ('del', 0), ('del', 0), ('nsdel', 'p')])
@@ -440,7 +469,7 @@ class Walker:
             styled = [p for p, rule, _ in st.walk() if rule.type in (rule.STYLE_RULE, rule.PAGE_RULE, rule.FONT_FACE_RULE,
                                                                       rule.MARGIN_RULE)]
             if styled:
-                return ('decl', r.choice(styled), r.randint(0, 7))
+                return ('decl', r.choice(styled), r.randint(0, 9))
         if not conts:
             return ('add', self.spec(r.choice(['media', 'page']), declared), 0)
         path, c = r.choice(conts)
@@ -458,8 +487,12 @@ class Walker:
             s = self.spec(k, declared if r.random() < 0.9 else [], 1)
             via = int(r.random() < 0.3)
             return ('nins', path, s, self.index(m), via)
-        if x < 0.96:
+        if x < 0.945:
             return ('ndel', path, r.randint(-m - 1, m))
+        if x < 0.965:
+            good = ['style', 'comment', 'unknown', 'page', 'media'] if is_media else ['margin', 'comment']
+            return ('nbroken', path, [self.spec(r.choice(good), [], 1, True) for _ in range(r.randint(0, 3))],
+                    r.randrange(len(BROKEN_TAILS)))
         # (prefixes in the text of a container that is itself nested are resolved through parentStyleSheet, which is the
         # sheet at every depth since the fix of C09-parentstylesheet-depth2)
         nons = False
@@ -489,6 +522,8 @@ class HistState:
     def __init__(self, sheet):
         self.sheet = sheet
         self.tracked = {}
+        self.decls = {}           # id -> (declaration block, type of the rule it was seen in)
+        self.props = {}           # id -> (property, ...)
         self.taint_obj = {}       # id(obj) -> finding id (clause-specific: parent links / nested kind)
         self.taint_order = None   # finding id while the top-level order is broken by a known finding
 
@@ -578,6 +613,15 @@ class HistState:
                 inner = ' '.join(s.text(self.prefix_of_sheet) for s in op[2])
                 c.cssText = ('@media tv{%s}' if c.type == c.MEDIA_RULE else '@page :first{margin:0;%s}') % inner
                 r = None
+            elif t == 'nbroken':
+                c = self.at(op[1])
+                is_media = c.type == c.MEDIA_RULE
+                kids = op[2]
+                if BROKEN_TAILS[op[3] % len(BROKEN_TAILS)] == 'UNCLOSED' and kids and kids[-1].kind in ('style', 'media', 'page', 'margin', 'fontface', 'variables'):
+                    kids = kids + [Spec('comment')]     # the last child must not be a block (its brace would close the rule)
+                inner = ' '.join(s.text(self.prefix_of_sheet) for s in kids)
+                c.cssText = broken_text(is_media, inner, op[3])
+                r = None
             elif t == 'mode':
                 cssutils.log.raiseExceptions = bool(op[1])
                 r = None
@@ -600,6 +644,19 @@ class HistState:
                     rule.style = 'bottom: 3px'
                 elif v == 6:
                     rule.style.setProperty(css.Property('right', '4px'))
+                elif v == 8:
+                    # the text of the whole rule: a new declaration block replaces the old one
+                    if rule.type == rule.STYLE_RULE and not rule.selectorList._getUsedUris():
+                        # (same selector as every generated rule without namespaces: the model's view is unchanged)
+                        rule.cssText = '.a{top: 8px; color: blue}'
+                    elif rule.type == rule.FONT_FACE_RULE:
+                        rule.cssText = '@font-face{font-family: y}'
+                    elif rule.type == rule.MARGIN_RULE:
+                        rule.cssText = '%s{top: 8px}' % rule.margin
+                    else:
+                        rule.style = css.CSSStyleDeclaration(cssText='margin: 8px')
+                elif v == 9:
+                    del rule.style['color']
                 else:
                     rule.style.cssText = 'top: ; x'      # refused (or partly ignored)
                 r = None
@@ -687,6 +744,25 @@ class Env:
         self.quiet = quiet
         from harness import c09_oracle
         self.oracle = c09_oracle.Oracle(ctx)
+        # which of the listed known findings reproduce on the tree under test (their regions are attributed only then)
+        from lib.framework import load_known
+        import subprocess
+        try:
+            subjects = set(subprocess.run(['git', '-C', ctx.repo, 'log', '--format=%s', '-400'], capture_output=True,
+                                          text=True, timeout=30).stdout.split('\n'))
+        except Exception:
+            subjects = set()
+        for f in load_known('C09'):
+            # a finding whose fix commit is in the history of the tree under test is fixed there: nothing is
+            # attributed to it, so a regression is reported as a violation
+            if f.get('status') == 'known' and f.get('commit_subject') not in subjects:
+                try:
+                    if c09_oracle.replay_known(self, f):
+                        self.oracle.active_known.add(f['id'])
+                except Exception:
+                    pass
+        if not quiet:
+            ctx.notes['known_findings_active'] = sorted(self.oracle.active_known)
 
     def restore(self):
         self.cssutils.log.raiseExceptions = self.saved_raise
